@@ -213,6 +213,40 @@ func c19(r *engine.Report, p *engine.Program) {
 				ok = false
 				why = "the result of the secret test does not decide a branch"
 			}
+			// unconditional: whenever the record carries remote extra data (the type assertion
+			// succeeded) the scan runs — no other condition (TLS profile set, state, ...) may skip it
+			if ok {
+				var rng ssa.Instruction
+				if ri, isI := sc.ranged.(ssa.Instruction); isI {
+					_ = ri
+				}
+				for _, b := range rst.Blocks {
+					for _, in := range b.Instrs {
+						if rg, isR := in.(*ssa.Range); isR && rg.X == sc.ranged {
+							rng = in
+						}
+					}
+				}
+				var notOK []engine.Edge
+				for _, b := range rst.Blocks {
+					for _, in := range b.Instrs {
+						if ta, isTA := in.(*ssa.TypeAssert); isTA && ta.CommaOk {
+							_, f := engine.CondEdges(rst, func(c ssa.Value) (bool, bool) {
+								e, isE := c.(*ssa.Extract)
+								return isE && e.Tuple == ssa.Value(ta) && e.Index == 1, true
+							})
+							notOK = append(notOK, f...)
+						}
+					}
+				}
+				if rng != nil {
+					cut := engine.EdgeSet{}.Add(notOK...)
+					if skip := engine.Reach(rst, nil, cut, func(in ssa.Instruction) bool { return in == rng }, func(in ssa.Instruction) bool { _, isRet := in.(*ssa.Return); return isRet }); skip != nil {
+						ok = false
+						why = "a return is reachable without scanning the parameter names although the record carries remote parameters (the scan is skipped under some other condition)"
+					}
+				}
+			}
 		}
 		r.Check("R2-redaction", "remoteUnit.Status: secret_* keys deleted from the copy on every call", rst.Pos(), ok,
 			"Status() ranges over the copy's RemoteParams, tests ToLower(k) for the prefix \"secret_\", and deletes the matching keys from that same copy", why+" — secret values appear in status/list responses (e.g. after the unit was re-created from disk at restart)")
